@@ -405,44 +405,40 @@ theorem limiter_states_per_remedy (ps : List DPol) (hacc : accepted ps = true) :
   rw [← n₁, ← n₂, ← e₁, ← e₂, hk]
 
 /-- A request whose chain holds ONE throttling remedy next to any number of remedies that cannot answer a request
-    themselves — retry, authentication (o_auth / api_key / basic), account orchestration — in ANY order (partial:
-    chains with a fixed-response or caching remedy are excluded; caching is finding F09g) is answered exactly as that
-    remedy's `OnRequest` answers: same verdict, same rejection status and body, the same counter step, nothing
-    stored. -/
-theorem dispatch_single_throttle_partial (cap : CapFn) (s : DState) (ps : List DPol) (url method : String)
+    themselves — retry, authentication (o_auth / api_key / basic), account orchestration, caching (it stores provider
+    responses only: fix F09g) — in ANY order is answered exactly as that remedy's `OnRequest` answers: same verdict,
+    same rejection status and body, the same counter step.  (A fixed-response remedy in the chain answers in its
+    place when the request asks for it — by design, hence the hypothesis.) -/
+theorem dispatch_single_throttle (cap : CapFn) (s : DState) (ps : List DPol) (url method : String)
     (hs : List (String × String)) (t : Nat) (r : Remedy)
     (hplain : (chain ps url method).all plain = true)
     (h : (chain ps url method).filterMap remedyOf = [r]) :
     dispatchStep cap s ps url method hs t
       = ({ s with lim := (pluginStep cap s.lim r hs t).1 }, toDAns (pluginStep cap s.lim r hs t).2) := by
-  simp only [dispatchStep, runChain_single_throttle cap url method hs t _ s r hplain h,
-    storeEarly_plain _ _ url method _ hplain]
+  simp only [dispatchStep, runChain_single_throttle cap url method hs t _ s r hplain h]
 
-/-- A request whose chain holds no throttling remedy (and no fixed-response / caching remedy) passes and touches no
-    counter. -/
+/-- A request whose chain holds no throttling remedy (and no fixed-response remedy) passes and touches no counter. -/
 theorem dispatch_no_throttle (cap : CapFn) (s : DState) (ps : List DPol) (url method : String)
     (hs : List (String × String)) (t : Nat) (hplain : (chain ps url method).all plain = true)
     (h : (chain ps url method).filterMap remedyOf = []) :
     dispatchStep cap s ps url method hs t = (s, .pass) := by
-  simp only [dispatchStep, runChain_no_throttle cap url method hs t _ s .pass hplain h, storeEarly]
-
-/-- F09g.  A caching remedy in the chain of a throttling remedy stores the throttling REJECTION (the early response
-    is run through the response side of the chain) and replays it: allowed 1 per 2 s; the second request of window
-    500 250 is rejected (rightly) — and so are the requests 10 s and 20 s later, in empty windows, although the
-    throttling remedy itself lets them pass. -/
-theorem cached_rejection_violation_witness :
-    ∃ (ps : List DPol) (r : Remedy), accepted ps = true ∧
-      let u := "api.example.com/orders"
-      let s1 := dispatchStep capExact {} ps u "GET" [] 1000500000000
-      let s2 := dispatchStep capExact s1.1 ps u "GET" [] 1000500000001
-      let s3 := dispatchStep capExact s2.1 ps u "GET" [] 1010500000000
-      [s1.2, s2.2, s3.2] = [.pass, .early 429 tooMany, .early 429 tooMany] ∧
-      (pluginStep capExact s2.1.lim r [] 1010500000000).2 = .noop := by
-  refine ⟨[⟨some ("api.example.com/orders", "GET"), "t1", true, .throttle ⟨"", 1, 2, 0, false, 0, none, true⟩⟩,
-           ⟨some ("api.example.com/orders", "GET"), "c1", true, .cache 100000⟩],
-          ⟨"t1", 1, 2, 0, false, 0, none, true⟩, ?_, ?_⟩ <;> decide +kernel
+  simp only [dispatchStep, runChain_no_throttle cap url method hs t _ s .pass hplain h]
 
 /-! ### Non-vacuity -/
+
+/-- the former F09g witness (allowed 1 per 2 s and a caching remedy on the endpoint): the rejection is not cached —
+    the requests 10 s and 20 s later, in empty windows, pass. -/
+example :
+    let ps : List DPol := [⟨some ("api.example.com/orders", "GET"), "t1", true, .throttle ⟨"", 1, 2, 0, false, 0, none, true⟩⟩,
+      ⟨some ("api.example.com/orders", "GET"), "r1", true, .retry 2 429 429⟩,
+      ⟨some ("api.example.com/orders", "GET"), "c1", true, .cache 100000⟩]
+    let u := "api.example.com/orders"
+    let s1 := dispatchStep capExact {} ps u "GET" [] 1000500000000
+    let s2 := dispatchStep capExact s1.1 ps u "GET" [] 1000500000001
+    let s3 := dispatchStep capExact s2.1 ps u "GET" [] 1010500000000
+    let s4 := dispatchStep capExact s3.1 ps u "GET" [] 1020500000000
+    [s1.2, s2.2, s3.2, s4.2] = [.pass, .early 429 tooMany, .pass, .pass] := by
+  decide +kernel
 
 /-- dispatcher level: the document of seed C09-s11 (one name on two endpoints) is refused; with distinct names
     `/orders` (2 per hour, behind an o_auth remedy listed FIRST — seed C09-s13) and `/invoices` (5 per two hours) keep
